@@ -222,6 +222,7 @@ def run(ctx):
             bad = oracle_item(g, m, {})
             ctx.case([cfg.name, i, len(m.solution)], nontrivial=len(m.solution) >= 2)
             if bad: ctx.violate(f"serial item {i} of {case} (grid {g}) seed={cfg.seed}: {bad}", dict(case=case, ep={}, seed=cfg.seed, index=i))
+    _far_corner_datasets(ctx, 8 if ctx.quick else 80)
     # ---- parallel generation: oracle + certified optimal length ---------------------------------
     certs = []
     for idx, (cfg, case, ep) in enumerate(par_jobs):
@@ -313,8 +314,34 @@ def _cfg_of(case, ep, seed, n_mazes, name="search"):
                              maze_ctor_kwargs=case["kwargs"], endpoint_kwargs=epk, seed=seed)
 
 
+def _far_corner_datasets(ctx, n_mazes):
+    """big mazes WITH cycles whose endpoints are pinned to opposite corners (the solver has to choose among many long routes; anything
+    that is only a tie-breaker on small grids grows into a preference here): serial datasets, judged per item. Oracle only."""
+    from maze_dataset import MazeDataset
+    done = 0
+    while done < n_mazes and not ctx.violations:
+        g = ctx.rng.choice([128, 128, 100])
+        corners = ctx.rng.choice([((0, 0), (g - 1, g - 1)), ((0, g - 1), (g - 1, 0)), ((g - 1, g - 1), (0, 0))])
+        case = dict(gen="dfs_percolation", rows=g, cols=g, kwargs=dict(p=ctx.rng.choice([0.25, 0.3, 0.35])))
+        ep = dict(allowed_start=[corners[0]], allowed_end=[corners[1]])
+        k = min(4, n_mazes - done)
+        cfg = _cfg_of(case, ep, ctx.rng.randint(0, 2**20), k, f"c03far{g}")
+        try:
+            ds = MazeDataset.generate(cfg, gen_parallel=False)
+        except Exception as e:
+            ctx.violate(f"serial generation on a {g}x{g} grid ({case}, endpoints pinned to {corners}) raised {type(e).__name__}: {str(e)[:200]}", dict(case=case, ep=opts_json(ep), seed=cfg.seed)); return
+        done += k; ctx.count("far_corner_mazes", k)
+        for i, m in enumerate(ds.mazes):
+            bad = oracle_item(g, m, ep)
+            ctx.case([cfg.name, cfg.seed, i, len(m.solution)], nontrivial=True)
+            if bad:
+                ctx.violate(f"serial item {i} of {case} (grid {g}, endpoints pinned to opposite corners {corners}) seed={cfg.seed}: {bad}", dict(case=case, ep=opts_json(ep), seed=cfg.seed, index=i)); return
+
+
 def search(ctx):
     from maze_dataset import MazeDataset
+    _far_corner_datasets(ctx, 60)
+    if ctx.violations: return
     # 1. around the inputs on which the correspondence broke: same configuration and seed, every item judged, and the solver
     #    on every ordered pair of the very mazes involved
     seen = set()
